@@ -689,3 +689,9 @@ def sensor_event_bounded(vc):
             return False
     vc.ensure("B-C01-sensor-event.space-based", delivered(dict(type="spacecraft"), dict(type="eci", position=[rad, 0.0, 0.0], velocity=[0.0, (398600.4418 / rad) ** 0.5, 0.0])))
     vc.ensure("B-C01-sensor-event.ground-based", delivered(dict(type="ground_facility"), dict(type="lla", latitude=lat, longitude=lon, altitude=0.1)))
+
+
+# a planned maneuver handed to the estimate's filter must stay queued until it has fired: processing a prediction result writes the listed estimate attributes and
+# nothing else - in particular not the registrant's propagate_event_queue (C08 frame obligation), re-checked in this property's own run
+from contracts import C08 as _C08  # noqa: E402,F401
+_share("C08", "frames", "C01")
